@@ -250,7 +250,7 @@ impl Check for C02 {
         "C02"
     }
     fn rule(&self) -> String {
-        "progGen programs (typed pool, natives with callbacks, classes, generators, proxies, JSON, Map/Set, try/finally, async helpers, host holes answered by the simulated host incl. errors and deferred promises) x 4-8 seeded collection schedules each (threshold in {1,2,3,5,7,13,100}, injected collections with p in {0.01,0.1,0.5}, burst windows placed by the reference allocation count, host-forced collect() after steps / at suspensions, mixtures); reference = same program and host tape with collection off. non-trivial = reference run is not a syntax error AND at least one perturbed run collected at least once; distinct = distinct hash of (program outcome digest, schedule list)".into()
+        "progGen programs (typed pool, natives with callbacks, classes, generators, proxies, JSON, Map/Set, try/finally, async helpers, host holes answered by the simulated host incl. errors and deferred promises) x 4-8 seeded collection schedules each (threshold in {1,2,3,5,7,13,100}, injected collections with p in {0.01,0.1,0.5}, burst windows placed by the reference allocation count, host-forced collect() after steps / at suspensions, mixtures); reference = same program and host tape with collection off. non-trivial = reference run is not a syntax error AND at least one perturbed run collected at least once; distinct = distinct hash of (program outcome digest, schedule list). Further strata: the author-written corpus (2446 snippets of tests/interpreter, 26 programs of examples/ with their module graphs) under the same schedules; sessions = histories of entry-module runs on ONE interpreter (lib / user / chain / solo modules with live bindings, default exports, generators, classes) in which the host keeps exports (host-guarded), calls kept functions after later runs, re-runs entry paths, forces collections and allocates; progGen also carries native matrix catalogues 1-3, register-only temporaries, values exported by expression (also in a provided dependency and next to a mid-body re-export from the internal source module lib:util), batch orders, host-called resolvers, Promise.all over then-derived members".into()
     }
     fn components(&self) -> Value {
         json!({"real": ["lexer", "parser", "compiler", "BytecodeVM", "Interpreter prepare/step/eval/fulfill_orders", "gc.rs", "builtins", "api.rs promise helpers"],
